@@ -6,7 +6,7 @@
    hook arguments and return the same point and outcome kind, and the caller's
    start vector must be unchanged. *)
 From Coq Require Import ZArith List Bool Floats.
-From ADV Require Import Base.Num Base.Corr C07.Model C07.ModelNewton C07.ModelNewtonMin C07.ModelSaga C07.ModelSagaJit C07.ModelBlahut C07.ModelAdamGeneric.
+From ADV Require Import Base.Num Base.Corr C07.Model C07.ModelNewton C07.ModelNewtonDir C07.ModelNewtonMin C07.ModelSaga C07.ModelSagaJit C07.ModelBlahut C07.ModelAdamGeneric.
 Import ListNotations.
 Open Scope Z_scope.
 
@@ -143,16 +143,27 @@ Section ReplayNewton.
 Variable tbl : list lev.
 Definition oNF (k : nat) (x : list float) : nw_answer (A := float) :=
   match nth_error tbl k with Some (LEvalV _ _ e y J) => mkNwAns e y J | _ => mkNwAns true [] [] end.
-Definition oND (k : nat) (mode : Z) (y : list float) (J : list (list float)) : dir_ans (A := float) :=
-  match nth_error tbl k with
-  | Some (LDir st t) => if st =? 0 then DirOk t else if st =? 1 then DirErr else DirPanic
-  | _ => DirErr
-  end.
 Definition oNHK (k : nat) (h : nw_hookargs (A := float)) : bool :=
   match nth_error tbl k with Some (LHookV _ _ _ b) => b | _ => true end.
 End ReplayNewton.
 
 Definition mfeqb (a b : list (list float)) : bool := list_eqb vfeqb a b.
+
+(* round 6: getDirection is no longer an oracle of the replay.  The machines are run CLOSED over
+   ModelNewtonDir.get_direction (binary64 instance); the direction the Go routine left in
+   InSitu.T1 — or its error / panic — is only COMPARED, bit for bit, with what the model computed
+   from the (mode, y, J) it had at that moment *)
+Definition dir_eqb (a b : dir_ans (A := float)) : bool :=
+  match a, b with
+  | DirOk t, DirOk t' => vfeqb t t'
+  | DirErr, DirErr => true
+  | DirPanic, DirPanic => true
+  | _, _ => false
+  end.
+Definition dir_logged (st : Z) (t : list float) : dir_ans (A := float) :=
+  if st =? 0 then DirOk t else if st =? 1 then DirErr else DirPanic.
+Definition mND (k : nat) (mode : Z) (y : list float) (J : list (list float)) : dir_ans (A := float) :=
+  get_direction_F mode y J.
 
 Definition nev_match (e : nw_event (A := float)) (l : lev) : bool :=
   match e, l with
@@ -160,7 +171,7 @@ Definition nev_match (e : nw_event (A := float)) (l : lev) : bool :=
       vfeqb x x' && list_eqb (list_eqb fnumeq) (ident NumF (length x)) sd
   | NvHook h b, LHookV x J y b' =>
       vfeqb (nh_x h) x && mfeqb (nh_J h) J && vfeqb (nh_y h) y && Bool.eqb b b'
-  | NvDir _ _ _ _, LDir _ _ => true
+  | NvDir _ _ _ d, LDir st t => dir_eqb d (dir_logged st t)
   | NvCons x b, LCons x' b' => vfeqb x x' && Bool.eqb b b'
   | _, _ => false
   end.
@@ -176,7 +187,7 @@ Definition nw_point (o : nw_out (A := float)) : list float :=
 
 Definition run_newton (c : case) (p : nw_params (A := float)) : nw_out (A := float) * nw_trace (A := float) :=
   let tbl := c_table c in
-  newton_root NumF (oNF tbl) (oND tbl) (oNHK tbl) (oCS tbl) p (length tbl + 5)%nat (c_x0 c).
+  newton_root NumF (oNF tbl) mND (oNHK tbl) (oCS tbl) p (length tbl + 5)%nat (c_x0 c).
 
 Definition check_newton (c : case) (p : nw_params (A := float)) : bool :=
   let r := run_newton c p in
@@ -211,7 +222,7 @@ Definition mev_match (e : nm_event (A := float)) (l : lev) : bool :=
       vfeqb (phi_point x p al) x' && list_eqb (list_eqb fnumeq) (phi_seeds p) sd
   | MvHook h b, LHookM x g H y b' =>
       vfeqb (mh_x h) x && vfeqb (mh_g h) g && mfeqb (mh_H h) H && feqb (mh_y h) y && Bool.eqb b b'
-  | MvDir _ _ _ _, LDir _ _ => true
+  | MvDir _ _ _ d, LDir st t => dir_eqb d (dir_logged st t)
   | MvCons x b, LCons x' b' => vfeqb x x' && Bool.eqb b b'
   | _, _ => false
   end.
@@ -227,7 +238,7 @@ Definition nm_point (o : nm_out (A := float)) : list float :=
 
 Definition run_newton_min (c : case) (p : nm_params (A := float)) : nm_out (A := float) * nm_trace (A := float) :=
   let tbl := c_table c in
-  newton_min NumF KF (oMF tbl) (oMPHI tbl) (oND tbl) (oMHK tbl) (oCS tbl) p (length tbl + 5)%nat (c_x0 c).
+  newton_min NumF KF (oMF tbl) (oMPHI tbl) mND (oMHK tbl) (oCS tbl) p (length tbl + 5)%nat (c_x0 c).
 
 Definition check_newton_min (c : case) (p : nm_params (A := float)) : bool :=
   let r := run_newton_min c p in
